@@ -121,6 +121,19 @@ def run(ctx, for_c10=False):
         for n in sorted(notes, key=lambda n: (unfrac(n[0]), n[1])):
             if (n[0], n[1]) not in seen: seen.add((n[0], n[1])); uniq.append(n)
         streams.append(("late-release", uniq))
+    # beats off the 1/48 grid lying closer together than a tick (384th and 1000-row measures, fifths against 48ths, sums
+    # computed arithmetically): notes are one group only when their beats are equal, not when they round to the same tick
+    for i in range(ctx.scale(200, 3000)):
+        cols = rng.randrange(1, 5)
+        den = rng.choice([96, 96, 192, 250, 5 * 48, 7 * 48, 1000])
+        b = Fraction(rng.randrange(0, 3 * 48), 48)
+        notes = []
+        for r in range(rng.randrange(2, 9)):
+            for c in range(cols):
+                if rng.random() < .6:
+                    notes.append([frac(b), c, rng.choice("1112M4"), 0, None])
+            b += rng.choice([Fraction(1, den), Fraction(1, den), Fraction(2, den), Fraction(1, 48) - Fraction(1, den), Fraction(1, 48)])
+        streams.append(("off-grid", notes))
     from simfile.notes import NoteData
     for p, i, t in gen.corpus_charts():
         notes = [gen.jnote(n) for n in NoteData(t) if n.player == 0]
@@ -164,7 +177,8 @@ def run(ctx, for_c10=False):
         return res, jobs
     # counting -------------------------------------------------------------------------------------
     creqs, cjobs = [], []
-    sample = [s for s in streams if s[0] != "grid"][: ctx.scale(300, 3000)] + streams[:ctx.scale(300, 3000)]
+    sample = [s for s in streams if s[0] != "grid"][: ctx.scale(300, 3000)] + [s for s in streams if s[0] == "off-grid"][: ctx.scale(100, 1000)] \
+        + streams[:ctx.scale(300, 3000)]
     for kind, notes in sample:
         mn = rng.randrange(1, 5)
         incl = rng.choice(["124L", "124L", "1", "1234AFKLM", "12M", ""])
